@@ -46,7 +46,9 @@ FIXED = {
                   "sqrt(2);-sqrt(2)", "sqrt(2);1/sqrt(2)", "sqrt(3);3;9", "1+sqrt(2);3-2*sqrt(2)", "sqrt(2);sqrt(3);sqrt(6)",
                   "sqrt(-2);2", "1+I;2",
                   # relations far outside any enumeration box (bases of very different size)
-                  "sqrt(2);2**100", "1+I;2**100", "sqrt(2);2**90;3", "sqrt(3);3**64"],
+                  "sqrt(2);2**100", "1+I;2**100", "sqrt(2);2**90;3", "sqrt(3);3**64",
+                  # ... and with a NON-INTEGRAL base (the height bound must account for the leading coefficient)
+                  "sqrt(2);1/2**100", "sqrt(3);1/3**64;2", "1+I;1/2**80"],
     "golden": ["(1+sqrt(5))/2;(1-sqrt(5))/2", "(1+sqrt(5))/2;(1-sqrt(5))/2;-1", "(3+sqrt(5))/2;(1+sqrt(5))/2",
                "(1+sqrt(5))/2;(sqrt(5)-1)/2", "(1+sqrt(5))/2;2"],
 }
